@@ -223,6 +223,14 @@ class Signal
 
             const auto numEntries = m_connections.entriesSize();
 
+            // Leave the emitting state and execute the disconnects requested during the emission
+            // when the loop below is left, also if a slot throws an exception.
+            struct EmitGuard {
+                Impl *impl;
+                decltype(numEntries) entries;
+                ~EmitGuard() { impl->finishEmit(entries); }
+            } guard{ this, numEntries };
+
             // This loop can *not* tolerate new connections being added to the signal inside a slot
             // Doing so will be undefined behavior
             for (auto i = decltype(numEntries){ 0 }; i < numEntries; ++i) {
@@ -243,6 +251,11 @@ class Signal
                     }
                 }
             }
+        }
+
+    private:
+        void finishEmit(uint32_t numEntries) noexcept
+        {
             m_isEmitting = false;
 
             if (m_disconnectedDuringEmit) {
@@ -264,7 +277,6 @@ class Signal
             }
         }
 
-    private:
         friend class Signal;
         struct Connection {
             std::function<void(Args...)> slot;
